@@ -21,6 +21,17 @@ type Crash struct {
 	OnlyCut int      `json:"only_cut"`
 	Raw     core.Hex `json:"raw,omitempty"`
 	How     string   `json:"how,omitempty"` // which corruption produced Raw (informational)
+	// Mode "manytracks": a header declaring Declared tracks followed by Have minimal track chunks.
+	Declared int `json:"declared,omitempty"`
+	Have     int `json:"have,omitempty"`
+}
+
+func manyTracksBytes(declared, have int) []byte {
+	b := []byte{'M', 'T', 'h', 'd', 0, 0, 0, 6, 0, 1, byte(declared >> 8), byte(declared), 0, 96}
+	for i := 0; i < have; i++ {
+		b = append(b, 'M', 'T', 'r', 'k', 0, 0, 0, 4, 0, 0xFF, 0x2F, 0)
+	}
+	return b
 }
 
 type crashWorld struct{}
@@ -32,6 +43,18 @@ func (crashWorld) Gen(seed uint64, tier string) core.Scenario {
 	}
 	// raw modes
 	c := &Crash{Mode: "raw", OnlyCut: -1}
+	if r.Chance(1, 150) {
+		// very many (minimal) track chunks: counters of 16 bits and less are in reach
+		n := r.PickInt(255, 256, 32767, 32768, 32769, 40000, 65535)
+		have := r.PickInt(n, n, n-1, n+1, 32769, 33000)
+		if have < 1 {
+			have = 1
+		}
+		if have > 66000 {
+			have = 66000
+		}
+		return &Crash{Mode: "manytracks", OnlyCut: -1, Declared: n, Have: have}
+	}
 	if r.Chance(1, 8) {
 		c.Raw = r.Bytes(r.Range(0, 64))
 		c.How = "random"
@@ -72,7 +95,42 @@ func (crashWorld) Gen(seed uint64, tier string) core.Scenario {
 		if pos < len(base.regions) {
 			region = base.regions[pos]
 		}
-		switch r.Intn(6) {
+		switch r.Intn(10) {
+		case 6: // a length byte becomes a small value: fixed-layout events (tempo, time signature, ...) get the wrong size
+			lens := regionPositions(base.regions, len(data), "meta-len", "sysex-len", "eot-len")
+			if len(lens) > 0 {
+				pos = lens[r.Intn(len(lens))]
+				region = base.regions[pos]
+			}
+			data[pos] = byte(r.Intn(6))
+			c.How += "smalllen@" + region + " "
+		case 7: // a meta type becomes one with a fixed layout
+			ts := regionPositions(base.regions, len(data), "meta-type", "eot-type")
+			if len(ts) > 0 {
+				pos = ts[r.Intn(len(ts))]
+				region = base.regions[pos]
+				data[pos] = byte(r.PickInt(0x51, 0x58, 0x59, 0x54, 0x00, 0x20, 0x21, 0x2F, 0x7F, 0x01))
+				c.How += "metatype@" + region + " "
+			}
+		case 8, 9: // a 32-bit length word gets a crafted value (also negative as int32, also pointing back into the file)
+			ws := regionStarts(base.regions, len(data), "chunk-len", "alien-len", "header-len", "track-first-chunkhdr", "track-later-chunkhdr")
+			if len(ws) > 0 {
+				pos = ws[r.Intn(len(ws))]
+				region = base.regions[pos]
+				if region == "track-first-chunkhdr" || region == "track-later-chunkhdr" {
+					pos += 4 // the length word follows the 4 type bytes
+				}
+				back := uint32(-(int32(pos) + 4))
+				v := r.PickU32(0, 1, 5, 7, 0x7FFFFFFF, 0x80000000, 0xFFFFFFFF, 0xFFFFFFF8, 0xFFFFFFF0, back, back-8, back+14, uint32(len(data)), uint32(r.Uint64()))
+				if pos+4 <= len(data) {
+					data[pos], data[pos+1], data[pos+2], data[pos+3] = byte(v>>24), byte(v>>16), byte(v>>8), byte(v)
+					c.How += "len32@" + region + " "
+					if pos >= 8 && r.Chance(1, 2) { // make it an unknown chunk so that the length is used for skipping
+						data[pos-1] ^= 0x20
+						c.How += "alienize "
+					}
+				}
+			}
 		case 0:
 			data[pos] ^= 1 << uint(r.Intn(8))
 			c.How += "bitflip@" + region + " "
@@ -126,6 +184,9 @@ func (crashWorld) Decode(raw json.RawMessage) (core.Scenario, error) {
 }
 
 func (s *Crash) Size() int {
+	if s.Mode == "manytracks" {
+		return s.Have
+	}
 	if s.Mode == "raw" {
 		return len(s.Raw)
 	}
@@ -137,6 +198,18 @@ func (s *Crash) Size() int {
 }
 
 func (s *Crash) Shrinks(try func(core.Scenario) bool) bool {
+	if s.Mode == "manytracks" {
+		for _, h := range []int{s.Have / 2, s.Have - 1000, s.Have - 1} {
+			if h >= 1 && h < s.Have {
+				c := *s
+				c.Have = h
+				if try(&c) {
+					return true
+				}
+			}
+		}
+		return false
+	}
 	if s.Mode == "raw" {
 		if core.ShrinkList([]byte(s.Raw), func(b []byte) bool {
 			c := *s
@@ -206,6 +279,27 @@ func checkAny(data []byte, o readOutcome, what string) []core.Violation {
 }
 
 func (s *Crash) Run(env *core.Env, st *core.Stats) (vs []core.Violation) {
+	if s.Mode == "manytracks" {
+		data := manyTracksBytes(s.Declared, s.Have)
+		o := readBytes(data, true)
+		st.Eval(1)
+		if st != nil {
+			st.Fault("many-track-chunks")
+			st.ReachKey("manytracks-outcome-" + o.kind())
+			st.Distinct(core.NewHash().Int(s.Declared).Int(s.Have))
+		}
+		what := fmt.Sprintf("header declaring %d tracks followed by %d minimal track chunks (%d bytes)", s.Declared, s.Have, len(data))
+		if v := checkAny(data[:0], o, what); len(v) > 0 && (o.call.panicked || o.call.timeout) {
+			return v
+		}
+		if o.call.alloc > allocBound(len(data)) {
+			return []core.Violation{core.V("allocation", "alloc", "%s: ReadFrom allocated %d bytes (bound %d)", what, o.call.alloc, allocBound(len(data)))}
+		}
+		if o.err == nil && s.Have >= s.Declared && s.Declared > 0 && len(o.s.Tracks) != s.Declared {
+			return []core.Violation{core.V("fabrication", "track-count", "%s: ReadFrom returned %d tracks", what, len(o.s.Tracks))}
+		}
+		return nil
+	}
 	if s.Mode == "raw" {
 		o := readBytes(s.Raw, true)
 		st.Eval(1)
@@ -215,7 +309,13 @@ func (s *Crash) Run(env *core.Env, st *core.Stats) (vs []core.Violation) {
 			st.Distinct(core.NewHash().Bytes(s.Raw))
 			st.Sample(map[string]any{"mode": "raw", "how": s.How, "input_hex": core.Trunc(core.HexStr(s.Raw), 300), "outcome": describeOutcome(o)})
 		}
-		return checkAny(s.Raw, o, "corrupted input ("+s.How+")")
+		if v := checkAny(s.Raw, o, "corrupted input ("+s.How+")"); len(v) > 0 {
+			return v
+		}
+		// the same bytes from a seekable source (a file): the library may take other paths
+		o2 := readSeekable(s.Raw, true)
+		st.Eval(1)
+		return checkAny(s.Raw, o2, "corrupted input from a seekable source ("+s.How+")")
 	}
 	sf := s.Src.produce()
 	if sf.bad != "" {
@@ -313,4 +413,31 @@ func keyRegionFine(r string) string {
 		return r
 	}
 	return keyRegion(r)
+}
+
+// regionPositions returns the byte positions whose region is one of the names.
+func regionPositions(regions []string, n int, names ...string) []int {
+	var out []int
+	for i, rg := range regions {
+		if i >= n {
+			break
+		}
+		for _, nm := range names {
+			if rg == nm {
+				out = append(out, i)
+			}
+		}
+	}
+	return out
+}
+
+// regionStarts returns the first position of every run of one of the named regions.
+func regionStarts(regions []string, n int, names ...string) []int {
+	var out []int
+	for _, p := range regionPositions(regions, n, names...) {
+		if p == 0 || regions[p-1] != regions[p] {
+			out = append(out, p)
+		}
+	}
+	return out
 }
